@@ -289,6 +289,17 @@ def r7(ctx):
         ctx.ob("totality:" + pr.split(":")[0][:80], False, "the parser/builder can reach an unchecked operation that is no longer discharged: " + pr[:300])
 
 
+@rule("C06.W", "type-level: compile-fail witnesses with compiling twins (K6; thorough tier)")
+def rw(ctx):
+    from analysis import witness
+    if ctx.config != "ws":
+        return
+    witness.check(ctx, {'c06_builder_board_private': "the builder's unvalidated board can be taken out without build()/validate()"})
+
+
+rw.thorough_only = True
+
+
 def _drop_validate(P):
     b = P.own("fns", MG + "BoardBuilder::build")
     for blk in b["blocks"]:
